@@ -396,6 +396,80 @@ func (g *eng) randEx(depth int) *ex {
 	}
 }
 
+// sample draws a hop list from the language of x (nil, false if it gave up); used to build
+// paths that a random expression has a fair chance to keep.
+func (g *eng) sample(x *ex) []hop {
+	r := g.r
+	switch x.op {
+	case "h":
+		p := x.p
+		h := hop{isd: isds[r.Intn(2)], as: ases[r.Intn(3)], in: ifs[r.Intn(3)], eg: ifs[r.Intn(3)]}
+		if p.isd != 0 {
+			h.isd = uint16(p.isd)
+		}
+		if p.as.kind == 2 {
+			h.as = p.as.val
+		}
+		switch p.nif {
+		case 1:
+			if p.i0 != 0 {
+				if r.Bool() {
+					h.in = p.i0
+				} else {
+					h.eg = p.i0
+				}
+			}
+		case 2:
+			if p.i0 != 0 {
+				h.in = p.i0
+			}
+			if p.i1 != 0 {
+				h.eg = p.i1
+			}
+		}
+		return []hop{h}
+	case "cat":
+		return append(g.sample(x.a), g.sample(x.b)...)
+	case "alt":
+		if r.Bool() {
+			return g.sample(x.a)
+		}
+		return g.sample(x.b)
+	case "opt":
+		if r.Bool() {
+			return nil
+		}
+		return g.sample(x.a)
+	}
+	n := r.Intn(3)
+	if x.op == "plus" {
+		n++
+	}
+	var out []hop
+	for i := 0; i < n; i++ {
+		out = append(out, g.sample(x.a)...)
+	}
+	return out
+}
+
+// pathOfHops turns a hop list into an interface list (the first ingress and the last egress
+// interface do not exist on a path and are dropped); nil for a single hop.
+func pathOfHops(hs []hop) *vpath {
+	if len(hs) == 1 || len(hs) > 6 {
+		return nil
+	}
+	var l []pif
+	for i, h := range hs {
+		if i > 0 {
+			l = append(l, pif{h.isd, h.as, h.in})
+		}
+		if i < len(hs)-1 {
+			l = append(l, pif{h.isd, h.as, h.eg})
+		}
+	}
+	return mkPath(l)
+}
+
 // evalSeq runs the real NewSequence(text).Eval(paths) and returns the mask of kept paths.
 func evalSeq(text string, paths []*vpath) (string, error) {
 	seq, err := pathpol.NewSequence(text)
@@ -805,7 +879,12 @@ func main() {
 				paths = append(paths, g.randPath(2+r.Intn(3)))
 			}
 		}
-		// paths made to fit: a witness-like path built from the predicates' literals
+		// paths drawn from the expression's own language (hit rate)
+		for k := 0; k < 8; k++ {
+			if p := pathOfHops(g.sample(x)); p != nil {
+				paths = append(paths, p)
+			}
+		}
 		g.seqCase(x, x.text(r), paths, "rand")
 	}
 	// literals the statement gives no meaning to (tie only): out-of-range decimal / hex groups, AS 0 in colon form
